@@ -63,7 +63,7 @@ def pick_selection(rng, target, only_backbone):
     if kind == 'resSeq+chain':
         c = rng.choice(chains)
         cn = sorted({r['resSeq'] for r in target.residues if r['chain'] == c})
-        return {'chainID': [c], 'resSeq': sorted(rng.sample(cn, max(2, len(cn) // 2)))}, 'resSeq+chain'
+        return {'chainID': [c], 'resSeq': sorted(rng.sample(cn, min(len(cn), max(2, len(cn) // 2))))}, 'resSeq+chain'
     if kind == 'name':
         if only_backbone:
             return {}, 'all'
